@@ -207,7 +207,15 @@ func runC12(t testing.TB, c C12Case) (key, what string, classes map[string]int) 
 		}
 		return sb.String()
 	}
-	if !s.WaitLines(Wait, func(ls []Line) bool { return len(shown(ls)) >= sentOut.Len() }) || shown(s.Lines()) != sentOut.String() {
+	nextIdx, shownLen := 0, 0
+	if !s.WaitLines(Wait, func(ls []Line) bool {
+		for ; nextIdx < len(ls); nextIdx++ {
+			if l := ls[nextIdx]; l.Seq > from && l.CL.Plain {
+				shownLen += len(l.CL.Line)
+			}
+		}
+		return shownLen >= sentOut.Len()
+	}) || shown(s.Lines()) != sentOut.String() {
 		got := shown(s.Lines())
 		return "shell-output-lost", fmt.Sprintf("the attached shell sent %d bytes but %d were displayed (first difference at %d)", sentOut.Len(), len(got), firstDiffS(got, sentOut.String())), classes
 	}
